@@ -891,6 +891,28 @@ theorem set_enumerator_every_history (h : K → Nat) (ops : List (SOp K)) (hops 
   refine ⟨_, AslProofs.HashMapEnum.walk_eq_enum i.wf.nb_pos, rfl, nd, fun y => ?_⟩
   rw [← a y]; exact me y
 
+/-- **`Set` table sizes**: after every history of set operations (merges, unions, intersections, differences,
+`Set(Array)`, clones, handle copies) the bucket count is again `2^e`, `0 ≤ e ≤ 30` — whatever the operand sets are -/
+theorem set_size_pow2_every_history (h : K → Nat) (ops : List (SOp K)) :
+    ∀ {s : HSet K}, SizeOK s → SizeOK (ops.foldl (fun s o => o.run h s) s) := by
+  induction ops with
+  | nil => intro s z; exact z
+  | cons o t ih =>
+    intro s z
+    apply ih
+    cases o with
+    | ins x => exact AslProofs.HashMapEnum.assign_size h 0 z x 1
+    | rem x => exact AslProofs.HashMapEnum.remove_size h z x
+    | clear => exact AslProofs.HashMapEnum.clear_size z
+    | clone => exact AslProofs.HashMapEnum.dup_size h 0 z
+    | addAll o => exact AslProofs.HashMapEnum.sAddAll_size h z o
+    | addSelf => exact AslProofs.HashMapEnum.sAddAll_size h z s
+    | union o => exact AslProofs.HashMapEnum.sUnion_size h s o
+    | inter o => exact AslProofs.HashMapEnum.sIn_size h s o
+    | diff o => exact AslProofs.HashMapEnum.sNotIn_size h s o
+    | fromArray xs => exact AslProofs.HashMapEnum.sFromList_size h xs
+    | handles r => exact z
+
 /-- **`Map`/`Dic` enumeration** (`Map::Enumerator`, `foreach2`, range-for, `keys()`) after any history: every read is
 inside the array, the entries come in strictly ascending key order, each key once, and they are exactly the abstract map -/
 theorem map_enumerator_every_history {cmp : K → K → Ordering} (so : StrictOrder cmp) (dflt : V) (ops : List (MOp K V))
@@ -1001,6 +1023,8 @@ example : AslProofs.HashMapEnum.SizeOK (tbl [1, 5, 9]) ∧ HashMap.walk (HashMap
 example : HashMap.nextPoTInt 0 = 0 ∧ HashMap.nextPoTInt (-3) = 0 ∧ HashMap.nextPoTInt 1 = 1 ∧ HashMap.nextPoTInt 257 = 512 := by decide
 example : AslProofs.HashMapEnum.LoadOK (tbl [1, 5, 9]) ∧ (tbl [1, 5, 9]).rc ≤ 1 := by
   refine ⟨Or.inl (by decide), by decide⟩
+/-- `tbl` has `Int` values, so it is also a `Set<int>` table: the hypothesis of `set_size_pow2_every_history` -/
+example : AslProofs.HashMapEnum.SizeOK (tbl [1, 5, 9] : HashMap.HSet Int) := ⟨2, by omega, by decide⟩
 example : HashMap.walk (⟨[], 0, 1⟩ : HashMap.HM Int Int) = none := by decide
 example : Map.walk [((1 : Int), (10 : Int)), (5, 50), (9, 90)] = some [(1, 10), (5, 50), (9, 90)] := by decide
 
